@@ -155,11 +155,43 @@ pub fn c09(rep: &mut Report, thorough: bool) {
         all.extend(nx.iter().cloned());
         seqs = nx;
     }
+    // every history on always-idle sub-displays, the shorter ones also on sub-displays that are busy after
+    // every busy-raising command, ignore what they receive meanwhile, and one of which is slower than the others
+    let mut runs: Vec<(Vec<usize>, Option<usize>)> = Vec::new();
     for h in all {
+        // (not the histories with a hardware reset: right after the pulse the model signals busy and the unchanged
+        // driver - like the vendor code - starts initialising without a wait, so the command-ignoring model is too
+        // hostile there)
+        if h.len() <= if thorough { 3 } else { 2 } && !h.iter().any(|i| alpha[*i].iter().any(|o| matches!(o, Op12::Reset))) {
+            for slow in 0..4 {
+                runs.push((h.clone(), Some(slow)));
+            }
+        }
+        runs.push((h, None));
+    }
+    for (h, slow) in runs {
         rep.eval(P);
-        let mut rig = Rig12::ready();
+        let mut rig = match slow {
+            None => Rig12::ready(),
+            Some(slow) => {
+                let mut rig = Rig12::new(|b| b.busy_mode = BusyMode::Physical);
+                let _ = rig.apply(&Op12::Reset);
+                let _ = rig.apply(&Op12::Init(0));
+                {
+                    let mut b = rig.board.borrow_mut();
+                    for (ci, c) in b.chips.iter_mut().enumerate() {
+                        c.busy.default_d = if ci == slow { 4 } else { 1 };
+                        c.drop_while_busy = true;
+                    }
+                }
+                rig
+            }
+        };
         let ops: Vec<Op12> = h.iter().flat_map(|i| alpha[*i].iter().cloned()).collect();
-        let case = J::obj().set("panel", P).set("history", ops.iter().map(|o| o.to_json()).collect::<Vec<_>>());
+        let mut case = J::obj().set("panel", P).set("history", ops.iter().map(|o| o.to_json()).collect::<Vec<_>>());
+        if let Some(slow) = slow {
+            case = case.set("slow_chip", slow).set("busy_polls", vec![1, 4]);
+        }
         let mut nref = [0usize; 4];
         let mut any = false;
         for o in &ops {
@@ -189,7 +221,10 @@ pub fn c09(rep: &mut Report, thorough: bool) {
             }
         }
         if any {
-            rep.nontrivial(hash_str(&format!("12c09|{:?}", h)));
+            rep.nontrivial(hash_str(&format!("12c09|{:?}|{:?}", h, slow)));
+        }
+        if slow.is_some() {
+            rep.count("histories_on_skewed_busy_sub_displays", 1);
         }
     }
 }
@@ -298,11 +333,24 @@ pub fn c05(rep: &mut Report, thorough: bool) {
         vec![Op12::Refresh, Op12::PowerOff, Op12::Refresh],
         vec![Op12::Refresh, Op12::Hibernate],
     ];
+    // (power-on, refresh) duration pairs: the small grid, plus very long (still finite) periods - a wait that
+    // gives up after some number of polls returns while sub-displays are busy
+    const LONG_PULSE: u32 = 10_000;
+    let mut pairs: Vec<(u32, u32)> = Vec::new();
+    for dp in &dvals {
+        for dr in &dvals {
+            pairs.push((*dp, *dr));
+        }
+    }
+    pairs.extend([(1, LONG_PULSE), (LONG_PULSE, 1), (LONG_PULSE, LONG_PULSE)]);
     for seq in &seqs {
         // per-chip durations for (power-on episode, refresh episode)
-        for dp in &dvals {
-            for dr in &dvals {
+        {
+            for (dp, dr) in &pairs {
                 for skew in 0..4u32 {
+                    if (*dp == LONG_PULSE || *dr == LONG_PULSE) && !thorough && skew > 1 {
+                        continue;
+                    }
                     rep.eval(P);
                     let mut rig = Rig12::new(|b| b.busy_mode = BusyMode::Physical);
                     let _ = rig.apply(&Op12::Reset);
@@ -492,6 +540,36 @@ pub fn c08(rep: &mut Report, thorough: bool) {
             }
         }
     }
+    // hibernate while an asynchronous refresh is still running, on sub-displays that ignore what they receive
+    // while busy: hibernate has to wait the refresh out (however long it takes) before the deep-sleep command
+    for (d, skew) in [(3u32, 4usize), (40, 4), (10_000, 4), (10_000, 2)] {
+        let seq = vec![Op12::Write1(small_rows(1)), Op12::BeginRefresh, Op12::Hibernate];
+        rep.eval(P);
+        let mut rig = Rig12::new(|b| b.busy_mode = BusyMode::Physical);
+        let _ = rig.apply(&Op12::Reset);
+        let _ = rig.apply(&Op12::Init(0));
+        {
+            let mut b = rig.board.borrow_mut();
+            for (ci, c) in b.chips.iter_mut().enumerate() {
+                c.busy.default_d = if skew == 4 || ci == skew { d } else { 2 };
+                c.drop_while_busy = true;
+            }
+        }
+        let case = J::obj().set("panel", P).set("history", seq.iter().map(|o| o.to_json()).collect::<Vec<_>>()).set("busy_polls", d).set("slow_chip", skew);
+        rep.nontrivial(hash_str(&format!("12c08busy|{}|{}", d, skew)));
+        if seq.iter().any(|o| !rig.apply(o).is_ok()) {
+            rep.count("ops_failing_for_other_reasons", 1);
+            continue;
+        }
+        rep.count("hibernate_during_refresh_checked", 1);
+        let b = rig.board.borrow();
+        for (ci, c) in b.chips.iter().enumerate() {
+            if !c.asleep {
+                fail(rep, "hibernate", "sleep-signature", vec![format!("chip={}", CHIP_NAMES[ci]), "panel-busy".into()], format!("hibernate() called while the refresh started by begin_refresh_display keeps {} busy for {} polls returned with chip {} not in deep sleep ({} commands ignored while busy)", if skew == 4 { "all sub-displays" } else { CHIP_NAMES[skew] }, d, CHIP_NAMES[ci], c.dropped_while_busy), case.clone());
+                break;
+            }
+        }
+    }
 }
 
 
@@ -610,7 +688,8 @@ pub fn c01_busy(rep: &mut Report, thorough: bool) {
         let want = snapshot(&idle);
         let skews: Vec<usize> = if thorough { vec![0, 1, 2, 3, 4] } else { vec![4, 3, 0] }; // 4 = all equal
         for skew in skews {
-            for extra in if thorough { vec![1u32, 3, 6] } else { vec![3u32] } {
+            // (10 000 extra polls: a wait that gives up after some number of polls returns while busy)
+            for extra in if thorough { vec![1u32, 3, 6, 10_000] } else { vec![3u32, 10_000] } {
                 rep.eval(P);
                 rep.nontrivial(hash_str(&format!("12c01busy|{}|{}|{}", si, skew, extra)));
                 let mut rig = Rig12::new(|b| b.busy_mode = BusyMode::Physical);
@@ -619,7 +698,8 @@ pub fn c01_busy(rep: &mut Report, thorough: bool) {
                 {
                     let mut b = rig.board.borrow_mut();
                     for (ci, c) in b.chips.iter_mut().enumerate() {
-                        c.busy.default_d = 2 + if ci == skew { extra } else { 0 };
+                        // skew 4 = all sub-displays equally slow
+                        c.busy.default_d = 2 + if ci == skew || (skew == 4 && extra > 6) { extra } else { 0 };
                         c.drop_while_busy = true;
                     }
                 }
